@@ -1,7 +1,7 @@
-From Gv Require Import lib.Bytes lib.Gql C05.Lex C05.Parse C05.Limits C05.Print C05.Spec C05.Tokens.
+From Gv Require Import lib.Bytes lib.Gql C05.Lex C05.Parse C05.Limits C05.Print C05.Spec C05.Tokens C15.Model.
 From Coq Require Import ZArith.
 Require Import ExtrOcamlBasic.
 Extraction Language OCaml.
 Extraction "model.ml" tokenize kind_code tok_lit lex parse_bytes tokenize_limits print_doc
   doc_depth doc_fields depth_sum max_depth_inlined limits_ok_b ranges_ok_b roundtrip_ok_b string_stable_b description_stable_b
-  doc_strings_stable_b lex_print_ok_b wf_doc Z.add Nat.add.
+  doc_strings_stable_b lex_print_ok_b wf_doc stored printed go_block_lexable Z.add Nat.add.
